@@ -53,7 +53,8 @@ from mc.ref import arch as R
 from mc.checks.c25 import build_arch
 
 MANIFEST = {
-    "text": "every small architecture tree (<= 4-6 nodes) with every placement of fanouts {2,3} on <= 2 leaves is "
+    "text": "every small architecture tree (<= 4 nodes quick / <= 5 thorough) with every placement of fanouts {2,3} on <= 2 "
+            "leaves (plus all 5- / 6-node shapes with one fanout) is "
             "costed with the real Spec.calculate_component_costs and each component's total area / leak power and "
             "the architecture totals are compared with instance counts multiplied out along a nested-list path "
             "search; right level because the accumulation is a structural walk whose cases (own fanout, container "
@@ -277,10 +278,8 @@ def run(ctx):
         _FAM["two-dims<=3"] = dict(tokens=XKC, nodes=3, depth=2, rot=0, fan_nodes=2, fan_values=(6,))
     else:
         _FAM["kinds<=5"] = dict(tokens=XKC, nodes=5, depth=3, rot=0, fan_nodes=2, fan_values=(2, 3))
-        _FAM["kinds=6"] = dict(tokens=XKC, nodes=6, depth=3, rot=0, fan_nodes=1, fan_values=(2,),
-                               exact_nodes=True)
         _FAM["two-dims<=4"] = dict(tokens=XKC, nodes=4, depth=3, rot=0, fan_nodes=2, fan_values=(6,))
-        _FAM["shapes=6"] = dict(tokens=LC, nodes=6, depth=4, rot=0, fan_nodes=2, fan_values=(2, 3),
+        _FAM["shapes=6"] = dict(tokens=LC, nodes=6, depth=4, rot=0, fan_nodes=1, fan_values=(2, 3),
                                 exact_nodes=True)
     ctx.explore("fanouts", tree_fn, body, shard_depth=4, distinct_by_construction=False)
     ctx.bound(**{k: {kk: vv for kk, vv in f.items()} for k, f in _FAM.items()})
